@@ -383,7 +383,7 @@ pub fn op_strategy(p: &Profile) -> BoxedStrategy<Op> {
     add(p.advance, clock_strategy().prop_map(|clock| Op::Advance { clock }).boxed());
     add(
         p.slash,
-        (0u8..5, prop_oneof![3 => 1u16..100, 2 => 100u16..=500], any::<bool>())
+        (prop_oneof![5 => 0u8..5, 1 => Just(255u8)], prop_oneof![3 => 1u16..100, 2 => 100u16..=500, 2 => proptest::sample::select(&[1u16, 10, 100, 500][..])], any::<bool>())
             .prop_map(|(v, permille, unbonding)| Op::Slash { v, permille, unbonding })
             .boxed(),
     );
@@ -446,7 +446,7 @@ pub fn history_strategy(p: &Profile, cfgs: BoxedStrategy<Cfg>) -> BoxedStrategy<
         cfgs,
         proptest::collection::vec(bond_strategy(p), p.prefix_bonds.clone()),
         proptest::collection::vec(op_strategy(p), p.len.clone()),
-        (0u32..100, 0u8..5, 1u16..=300),
+        (0u32..100, prop_oneof![4 => 0u8..5, 1 => Just(255u8)], prop_oneof![2 => 1u16..=300, 1 => proptest::sample::select(&[10u16, 100, 500][..])]),
     )
         .prop_map(move |(cfg, mut a, b, (roll, v, permille))| {
             if roll < pct {
@@ -640,12 +640,12 @@ pub fn many_accounts_scenario_strategy(p: &Profile, cfgs: BoxedStrategy<Cfg>) ->
         .boxed()
 }
 
-/// Structured generator: 3-5 registered validators, bonds, heavy slashing of one or two validators (uneven layout),
+/// Structured generator: 3-5 (sometimes up to 30) registered validators, bonds, heavy slashing of one or two validators (uneven layout),
 /// optionally liquid coins on the hub (donation or a matured undelegation), then bonds of pool-relative sizes.
 pub fn uneven_bond_scenario_strategy(cfgs: BoxedStrategy<Cfg>) -> BoxedStrategy<History> {
     (
         cfgs,
-        3u8..=5,
+        prop_oneof![8 => 3u8..=5, 1 => 6u8..=16, 1 => 17u8..=30],
         proptest::collection::vec((0u8..6, any::<bool>(), amt_strategy()), 2..5),
         proptest::collection::vec((0u8..5, prop_oneof![Just(500u16), Just(300u16), 50u16..500]), 1..4),
         proptest::option::weighted(0.6, amt_strategy()),
@@ -975,6 +975,25 @@ impl Interp {
                     }
                 };
                 vec![ROp::Advance { secs: secs.min(100_000) }]
+            }
+            Op::Slash { v: 255, permille, unbonding } => {
+                // every validator slashed by the same fraction (one event per validator): with round delegations the
+                // rates land exactly on 1 - permille/1000, e.g. exactly on a configured threshold
+                let permille = (*permille).clamp(1, 500);
+                let total = w.delegated(HUB);
+                if total == 0 {
+                    return noop("slash-all: nothing at stake");
+                }
+                let after: u128 = (0..self.cfg.n_vals).map(|i| w.delegation(HUB, &val(i)) * (1000 - permille as u128) / 1000).sum();
+                let s = hub_state(w);
+                if s.total_bond_bsei_amount.u128() + s.total_bond_stsei_amount.u128() > 0 && after == 0 {
+                    return noop("slash-all: would leave the hub without stake (E4)");
+                }
+                let floor = cosmwasm_std::Decimal::from_ratio(1u128, 100_000u128);
+                if s.bsei_exchange_rate < floor || s.stsei_exchange_rate < floor {
+                    return noop("slash-all: rate already near the E1 floor");
+                }
+                (0..self.cfg.n_vals).map(|i| ROp::Slash { validator: val(i), permille, unbonding: *unbonding }).collect()
             }
             Op::Slash { v, permille, unbonding } => {
                 let validator = self.val(*v);
